@@ -41,6 +41,7 @@ ResolveDiff(t, isSince, lg, sm, inc, mode) ==
 ResolveDurationRound(existing, lg, sm, inc, mode) ==
   IF ~IncInRange(inc) THEN ErrRange
   ELSE IF lg = Absent /\ sm = Absent THEN ErrRange
+  ELSE IF sm = "auto" THEN ErrRange                       \* auto is a value of largestUnit only
   ELSE LET sm2 == IF sm = Absent THEN "nanosecond" ELSE sm
            lg2 == IF lg \in {Absent, "auto"} THEN UnitMax(existing, sm2) ELSE lg
        IN IF ~UnitLe(sm2, lg2) THEN ErrRange
